@@ -369,7 +369,13 @@ def classify(kind, hist, exp, got):
     extra = got['defs'] - exp['defs']
     if kind == 'fun' and missing and any(d[1] == 'func' and d[2] == 'global' for d in missing) and not extra \
             and any('inline' in s[1] and s[3] for s in hist):
-        return 'fun/inline-definition-not-emitted-although-another-declaration-makes-it-external'
+        # the recorded defect: the declaration that makes the definition external comes AFTER the inline definition;
+        # when one at or before the definition already does, the definition itself must have been emitted
+        idef = next(i for i, s in enumerate(hist) if s[3] and s[2] == 'file')
+        ext = [i for i, s in enumerate(hist) if s[2] == 'file' and ('inline' not in s[1] or 'extern' in s[1])]
+        if ext and min(ext) > idef:
+            return 'fun/inline-definition-not-emitted-although-another-declaration-makes-it-external'
+        return 'fun/external-definition-not-emitted-although-a-declaration-up-to-the-definition-makes-it-external'
     if missing or extra:
         return '%s/definitions missing=%s extra=%s' % (kind, sorted(missing), sorted(extra))
     if exp['undef'] != got['undef']:
